@@ -258,6 +258,59 @@ pub fn csr<Ty: EdgeType, W: Clone>(a: &Abs<W>) -> Option<Enc<Csr<u32, W, Ty, u32
     Some(Enc { name: "Csr", g, ids, sparse: false })
 }
 
+/// a GraphMap that had two more nodes (the first inserted and one in the middle) with edges to them;
+/// removing them moves other nodes into their index positions
+pub fn graphmap_removed<Ty: EdgeType, W: Clone>(a: &Abs<W>) -> Option<Enc<GraphMap<u32, W, Ty>>> {
+    if !a.simple() {
+        return None;
+    }
+    let n = a.n;
+    let key = |i: usize| -> u32 { 3 * ((i + 1) % n.max(1)) as u32 + 1 };
+    let mut g = GraphMap::<u32, W, Ty>::new();
+    g.add_node(1000);
+    let mut ids = vec![];
+    for i in 0..n {
+        if i == (n + 1) / 2 {
+            g.add_node(2000);
+        }
+        ids.push(g.add_node(key(i)));
+    }
+    for (k, (x, y, w)) in a.edges.iter().enumerate() {
+        if k == 0 {
+            g.add_edge(1000, ids[*x], w.clone());
+            g.add_edge(ids[*y], 1000, w.clone());
+        }
+        if k == a.edges.len() / 2 && g.contains_node(2000) {
+            g.add_edge(ids[*x], 2000, w.clone());
+            g.add_edge(2000, 2000, w.clone());
+        }
+        g.add_edge(ids[*x], ids[*y], w.clone());
+    }
+    g.remove_node(1000);
+    g.remove_node(2000);
+    Some(Enc { name: "GraphMap(two nodes removed: others moved into their positions)", g, ids, sparse: false })
+}
+
+/// a Csr whose edges were all cleared once (clear_edges) and then inserted again in reverse order
+pub fn csr_cleared<Ty: EdgeType, W: Clone>(a: &Abs<W>) -> Option<Enc<Csr<u32, W, Ty, u32>>> {
+    if !a.simple() {
+        return None;
+    }
+    let mut g = Csr::<u32, W, Ty, u32>::new();
+    let ids: Vec<u32> = (0..a.n).map(|i| g.add_node(i as u32)).collect();
+    for (x, y, w) in &a.edges {
+        g.add_edge(ids[*y], ids[*x], w.clone());
+    }
+    if let Some(e) = a.edges.first() {
+        g.add_edge(ids[a.n - 1], ids[0], e.2.clone());
+    }
+    g.clear_edges();
+    for (x, y, w) in a.edges.iter().rev() {
+        g.add_edge(ids[*x], ids[*y], w.clone());
+    }
+    Some(Enc { name: "Csr(edges cleared once, reinserted in reverse order)", g, ids, sparse: false })
+}
+
 pub fn list<W: Clone>(a: &Abs<W>) -> Option<Enc<List<W, u32>>> {
     if !a.directed {
         return None;
